@@ -818,12 +818,18 @@ func (s *ShapeIndex) maybeApplyUpdates() {
 	// is fresh and when updating the status to be fresh. This guarantees
 	// that any thread that sees a status of fresh will also see the
 	// corresponding index updates.
+	verifSched(s, "load")
 	if atomic.LoadInt32(&s.status) != fresh {
+		verifSched(s, "lock")
 		s.mu.Lock()
+		verifSched(s, "locked")
 		s.applyUpdatesInternal()
+		verifSched(s, "store")
 		atomic.StoreInt32(&s.status, fresh)
+		verifSched(s, "unlock")
 		s.mu.Unlock()
 	}
+	verifSched(s, "ret")
 }
 
 // applyUpdatesInternal does the actual work of updating the index by applying all
@@ -847,6 +853,7 @@ func (s *ShapeIndex) applyUpdatesInternal() {
 	}
 
 	for face := 0; face < 6; face++ {
+		verifSched(s, "apply-face")
 		s.updateFaceEdges(face, allEdges[face], t)
 	}
 
